@@ -333,6 +333,17 @@ def check(report: Report, repo: Repo) -> None:
             except Unsupported:
                 okd = None
             report.add("R5-init", f"{MD}::{cname}.{st.name}", okd, f"{cname} overrides torch's {st.name}: it must delegate to the torch implementation (padding_idx row zeroed / affine parameters at ones, zeros), otherwise a constructor option is no longer honoured at initialisation", "no delegation" if okd is False else "delegates", "super()." + st.name + "()")
+    # a table handed to the constructor (`_weight=` / Embedding.from_pretrained) is taken as it is: torch's
+    # constructor skips reset_parameters and leaves the padding row alone, so the module may not (re-)initialise it
+    c3 = it.get_global(MD, "Embedding")
+    selfv = Obj("Embedding", cls=c3, term=T("param", ("self",)))
+    it.events = []
+    try:
+        it.call_function(it.class_attr(c3, "__init__"), [selfv, dim("V"), dim("E")], {"padding_idx": 3, "_weight": P("given_table", None)})
+        touch = [fmt(e["callee"]) for e in it.events if e.kind == "callv" and any(k_ in fmt(e["callee"]) for k_ in ("reset_parameters", "_fill_padding_idx_with_zero", "normal_", "zero_", "fill_", "uniform_", "copy_"))]
+        report.add("R5-init", f"{MD}::Embedding.__init__::given-table", not touch, "Embedding(..., padding_idx=3, _weight=table): the given table is not re-initialised (torch leaves its padding row as supplied; the parameter shares the caller's storage)", touch, [], nontrivial=False)
+    except Unsupported as ex:
+        report.add("R5-init", f"{MD}::Embedding.__init__::given-table", None, f"outside fragment: {ex}")
     # LinearReadout inherits Linear's reset
     lr_cls = it.get_global(MD, "LinearReadout")
     rp = it.class_attr(lr_cls, "reset_parameters")
@@ -493,7 +504,9 @@ def check_depth_containers(report: Report, repo: Repo, rule: str) -> None:
                 # layers that already belong to a deeper stack (e.g. a slice `stack[:2]` re-wraps them): the depth
                 # recorded for that stack must survive -- the container refuses them or leaves the depth alone
                 depths_ = [m.attrs["_p"].attrs.get("mup_scaling_depth") for m in mods]
-                report.add(rule, f"{cons}::restamp", bool(raised) or all(d == 4 for d in depths_), f"{sname}: a depth already recorded (4) is never overwritten by a second, shallower container", {"raised": raised, "depths": depths_}, "raises, or depths stay 4")
+                # (keeping the old depth silently is no better than overwriting it: one of the two containers then
+                # holds parameters whose recorded depth is not its own length)
+                report.add(rule, f"{cons}::restamp", bool(raised), f"{sname}: parameters that already carry a depth (4) are refused by a second container of another length (whichever depth were kept, one container's parameters would record a depth that is not its length)", {"raised": raised, "depths": depths_}, "raises")
                 continue
             if want_exc:
                 report.add(rule, f"{cons}::untagged", raised == [want_exc], f"{sname}: an untagged parameter inside a depth container is refused with ValueError", raised, [want_exc])
